@@ -418,6 +418,8 @@ func (e *esdt) createNewTokenIdentifier(caller []byte, ticker []byte) ([]byte, e
 	newRandomAsBigInt := big.NewInt(0).SetBytes(newRandomForTicker)
 
 	one := big.NewInt(1)
+	// the random sequence has tickerRandomSequenceLength bytes: keep the retried value within six hex digits
+	maxRandom := big.NewInt(1 << (8 * tickerRandomSequenceLength))
 	for i := 0; i < numOfRetriesForIdentifier; i++ {
 		encoded := fmt.Sprintf("%06x", newRandomAsBigInt)
 		newIdentifier := append(tickerPrefix, encoded...)
@@ -426,6 +428,7 @@ func (e *esdt) createNewTokenIdentifier(caller []byte, ticker []byte) ([]byte, e
 			return newIdentifier, nil
 		}
 		newRandomAsBigInt.Add(newRandomAsBigInt, one)
+		newRandomAsBigInt.Mod(newRandomAsBigInt, maxRandom)
 	}
 
 	return nil, vm.ErrCouldNotCreateNewTokenIdentifier
